@@ -36,6 +36,11 @@ pub struct WorkerOut {
     pub classes: BTreeMap<String, u64>,
     pub nontrivial: Vec<u64>,
     pub signatures: Vec<u64>,
+    /// large hash sets travel through binary files (u64 LE) instead of JSON
+    #[serde(default)]
+    pub nontrivial_file: Option<String>,
+    #[serde(default)]
+    pub signatures_file: Option<String>,
     pub samples: Vec<serde_json::Value>,
     pub config_counts: BTreeMap<String, u64>,
     pub stream_bytes: u64,
